@@ -743,3 +743,103 @@ Proof.
   rewrite (app_assoc (slice t lo e)), (slice_snoc t lo e ltac:(lia) L (line_end_is_break t b L)).
   symmetry. apply slice_parts. lia.
 Qed.
+
+(** ** ... and the cursor d leaves after taking whole lines is on the line that took their place *)
+Lemma find_nl_no_break_before t : forall f i j, (i <= j)%nat -> (j < find_nl t i f)%nat -> is_nl_at t j = false.
+Proof.
+  induction f as [|f IH]; intros i j Hij Hj; cbn [find_nl] in Hj; [lia|].
+  destruct (Nat.leb_spec (length t) i) as [L|L].
+  - unfold is_nl_at. rewrite (proj2 (nth_error_None t j)) by lia. reflexivity.
+  - destruct (is_nl_at t i) eqn:E; [lia|].
+    destruct (Nat.eq_dec i j) as [->|N]; [exact E|]. apply (IH (S i) j); [lia|exact Hj].
+Qed.
+
+Lemma same_line_start t q : forall c, (q <= c <= line_end t q)%nat -> line_start_from t c = line_start_from t q.
+Proof.
+  induction c as [|c IH]; intros H; [replace q with 0%nat by lia; reflexivity|].
+  destruct (Nat.eq_dec q (S c)) as [->|N]; [reflexivity|].
+  cbn [line_start_from].
+  rewrite (find_nl_no_break_before t (S (length t)) q c) by (unfold line_end in H; lia).
+  apply IH. lia.
+Qed.
+
+Lemma line_start_idem t x : line_start_from t (line_start_from t x) = line_start_from t x.
+Proof.
+  destruct (line_start_is_break t x) as [Z|B]; [now rewrite Z|].
+  destruct (line_start_from t x) as [|k] eqn:E; [reflexivity|].
+  cbn [line_start_from]. replace (S k - 1)%nat with k in B by lia. now rewrite B.
+Qed.
+
+Lemma nth_error_firstn_ops {A} : forall (n m : nat) (l : list A), (m < n)%nat -> nth_error (firstn n l) m = nth_error l m.
+Proof.
+  induction n as [|n IH]; intros m l H; [lia|]. destruct l as [|x l]; [reflexivity|].
+  destruct m as [|m]; [reflexivity|]. cbn. apply IH. lia.
+Qed.
+
+Lemma line_start_from_prefix (t t' : text) : forall x, firstn x t' = firstn x t -> line_start_from t' x = line_start_from t x.
+Proof.
+  induction x as [|x IH]; intros H; [reflexivity|]. cbn [line_start_from].
+  assert (Hx : firstn x t' = firstn x t).
+  { transitivity (firstn x (firstn (S x) t')); [rewrite firstn_firstn; f_equal; lia|].
+    rewrite H, firstn_firstn. f_equal. lia. }
+  assert (Hn : nth_error t' x = nth_error t x).
+  { rewrite <- (nth_error_firstn_ops (S x) x t') by lia. rewrite <- (nth_error_firstn_ops (S x) x t) by lia. now rewrite H. }
+  unfold is_nl_at. rewrite Hn. destruct (match nth_error t x with Some c => c =? nl | None => false end); [reflexivity|now apply IH].
+Qed.
+
+Lemma first_nonblank_between t : forall f i e, (i < e)%nat -> (i <= first_nonblank t i e f <= e)%nat.
+Proof.
+  induction f as [|f IH]; intros i e H; cbn [first_nonblank]; [lia|].
+  destruct (Nat.leb_spec e i); [lia|].
+  destruct (nth_error t i) as [c|]; [|lia].
+  destruct ((c =? 32) || (c =? 9)); [|lia].
+  destruct (Nat.eq_dec (S i) e) as [E|N].
+  - (* the line is all blanks: the search stops on its last character *)
+    subst e. destruct f as [|f]; cbn [first_nonblank]; [lia|].
+    destruct (Nat.leb_spec (S i) (S i)); [|lia]. replace (S i - 1)%nat with i by lia.
+    pose proof (line_start_le t i). lia.
+  - pose proof (IH (S i) e ltac:(lia)). lia.
+Qed.
+
+Theorem delete_lines_cursor_on_line ins (t : text) i a b kc :
+  (a <= b <= length t)%nat -> (line_end t b < length t)%nat ->
+  let s' := apply_op OpDelete ins (mkO t i None) (RLines a b kc) in
+  (o_cur s' <= length (o_text s'))%nat /\ line_start_from (o_text s') (o_cur s') = line_start_from t a.
+Proof.
+  intros Hab He. cbv zeta. cbn [apply_op o_text o_cur].
+  replace (Nat.min a (length t)) with a by lia. replace (Nat.min b (length t)) with b by lia.
+  set (lo := line_start_from t a). set (e := line_end t b).
+  pose proof (line_start_le t a) as Hlo. fold lo in Hlo.
+  pose proof (line_end_bounds t b ltac:(lia)) as Hbe. fold e in Hbe, He.
+  unfold lines_span. fold lo e.
+  destruct (Nat.ltb_spec e (length t)) as [L|L]; [|lia].
+  set (t' := cut t lo (S e)). cbn [o_text o_cur].
+  assert (Hlen : length t' = (length t - (S e - lo))%nat).
+  { unfold t', cut. rewrite app_length, firstn_length, skipn_length. lia. }
+  assert (Hf : firstn lo t' = firstn lo t).
+  { unfold t', cut. rewrite firstn_app, firstn_length, firstn_firstn.
+    replace (Nat.min lo (length t)) with lo by lia. rewrite Nat.sub_diag, firstn_O, app_nil_r. f_equal. lia. }
+  replace (Nat.min lo (length t')) with lo by lia.
+  assert (Hq : line_start_from t' lo = lo).
+  { rewrite (line_start_from_prefix t t' lo Hf). unfold lo. apply line_start_idem. }
+  rewrite Hq.
+  pose proof (line_end_bounds t' lo ltac:(lia)) as Hle.
+  assert (Hon : forall c, (lo <= c <= line_end t' lo)%nat -> (c <= length t')%nat /\ line_start_from t' c = lo).
+  { intros c Hc. split; [lia|]. rewrite (same_line_start t' lo c Hc). exact Hq. }
+  destruct kc.
+  - apply Hon. lia.
+  - apply Hon. unfold first_nb_of_line. rewrite Hq.
+    destruct (Nat.eqb_spec lo (line_end t' lo)) as [E|N]; [lia|].
+    pose proof (first_nonblank_between t' (S (length t')) lo (line_end t' lo) ltac:(lia)). lia.
+Qed.
+
+(** d over whole lines (dd, dj, dk, dG ... with any count), then P: the text is as it was *)
+Theorem delete_lines_P_roundtrip ins (t : text) i a b kc :
+  (a <= b <= length t)%nat -> (line_end t b < length t)%nat ->
+  o_text (put false 1 (apply_op OpDelete ins (mkO t i None) (RLines a b kc))) = t.
+Proof.
+  intros Hab He.
+  destruct (delete_lines_cursor_on_line ins t i a b kc Hab He) as [Hc Hls].
+  pose proof (delete_lines_then_P_restores ins t i a b kc _ Hab He Hc Hls) as H.
+  destruct (apply_op OpDelete ins (mkO t i None) (RLines a b kc)) as [t1 c1 r1]. exact H.
+Qed.
